@@ -178,7 +178,9 @@ def extra_obligations(mods, tier, seed):
              "b = LCD(i2c_addr=0x27)\nb.animate('blink', 1, 'hi', speed_ms=50)\n"]
     for nl in (0, 1, 2):
         for nb in (0, 1):
-            for body in ("    mon.write('user')\n    sleep(5)\n", "    k = k + 1\n    if k % 2 == 0:\n        continue\n    mon.write('user')\n    sleep(5)\n"):
+            for body in ("    mon.write('user')\n    sleep(5)\n", "    k = k + 1\n    if k % 2 == 0:\n        continue\n    mon.write('user')\n    sleep(5)\n") + (
+                             ("    k = k + 1\n    mon.write('user')\n    if k == 3:\n        a.write(0, 1, 'x')\n    sleep(5)\n",) if nl >= 1 else ()) + (
+                             ("    k = k + 1\n    mon.write('user')\n    a.animate('blink', 1, 'again', speed_ms=50)\n    sleep(5)\n",) if nl >= 1 else ()):
                 src = head + "".join(decls[:nl]) + ("btn = Button(4)\n" if nb else "") + "k = 0\nwhile True:\n" + body
                 n += 1
                 try:
@@ -282,6 +284,23 @@ def extra_obligations(mods, tier, seed):
     out.append({"name": "C18/host/frames-are-row-confined-and-tick-never-raises", "status": "discharged" if not bad3 else "sat", "backend": "bounded-native", "bounded": True,
                 "where": f"{n3} host runs (4 styles x 5 widths x text lengths around the width x loop on/off x tick strides): every frame after animate() and each tick() has rows of exactly "
                          "`cols` cells, the other row is untouched, nothing raises", "time": round(time.time() - t2, 3), "replay": {"bad": bad3[:4]}, "replay_confirmed": bool(bad3)})
+    # executed on the firmware mock next to the host model (BOUNDED): an animation whose animate() call is not executed draws nothing; static
+    # text of another row / the same row stays as the host keeps it
+    from progs import devdiff
+    imp = devdiff.IMPORTS
+    dscripts = {
+        "untaken-branch": "d = LCD(rs=22, en=23, d4=24, d5=25, d6=26, d7=27)\nd.line(0, 'static zero')\nd.line(1, 'static one')\nc = 1\nif c > 5:\n    d.animate('scroll', 0, 'never started', speed_ms=0)\nwhile True:\n    mon.write('m')\n    sleep(5)\n",
+        "if-else-alternatives": "d = LCD(rs=22, en=23, d4=24, d5=25, d6=26, d7=27)\nd.line(0, 'keep me')\nc = 1\nif c > 5:\n    d.animate('blink', 0, 'aaa', speed_ms=0)\nelse:\n    d.line(1, 'else arm')\nwhile True:\n    mon.write('m')\n    sleep(5)\n",
+        "zero-iteration-for": "d = LCD(i2c_addr=0x27)\nd.line(0, 'top text')\nfor i in range(0):\n    d.animate('typewriter', 0, 'zzz', speed_ms=0)\nwhile True:\n    mon.write('m')\n    sleep(5)\n",
+        "no-animation-at-all": "d = LCD(rs=22, en=23, d4=24, d5=25, d6=26, d7=27)\nd.line(0, 'plain')\nwhile True:\n    mon.write('m')\n    sleep(5)\n",
+    }
+    res = devdiff.run({k: imp + v for k, v in dscripts.items()}, lcd=True)
+    for r in res:
+        v = r["verdict"]
+        okv = v in ("same", "rejected", "python-undefined")
+        out.append({"name": f"C18/exec/{r['name']}", "status": "discharged" if okv else ("unknown" if v.startswith("harness") else "sat"), "backend": "bounded-differential", "bounded": True,
+                    "where": f"script '{r['name']}': display cells at every marker equal the host LCD's (an animation that was not started draws nothing) [{v}]", "time": 0.3,
+                    "replay": {"script": r.get("script"), "first_difference": r.get("first_difference"), "detail": r.get("detail")}, "replay_confirmed": not okv and not v.startswith("harness")})
     out.append({"name": "C18/arms/one-tick-per-pass-before-user-code", "status": "discharged" if not bad else "sat", "backend": "enum",
                 "where": f"{n} (animated displays, buttons, body shape) combinations: LCDTick nodes head loop_body; loop() calls each tick helper once, first",
                 "time": round(time.time() - t0, 3), "replay": {"bad": bad[:3]}, "replay_confirmed": bool(bad)})
